@@ -27,8 +27,14 @@ static Bytes validReply(uint64_t rid, int reqNo, int e) {
 struct Got { int responses = 0, errors = 0, notices = 0, others = 0; uint64_t pubTime = 0; int err = 0; std::vector<int> noticeErr; };
 
 // one request through k endpoints with given outcomes, made visible in the given arrival order
-static void singleRequest(Case &c, int k, const int *outc, const int *order, std::string &desc) {
-    resetSim(); Ctx ctx; KSI_AsyncService *has = nullptr; KSI_SigningHighAvailabilityService_new(ctx, &has);
+// prelude > 0: before the request under test, another HA service on the SAME context gets a request that is dropped while responses are still outstanding (service freed after prelude-1 runs)
+static void singleRequest(Case &c, int k, const int *outc, const int *order, std::string &desc, int prelude = 0) {
+    resetSim(); Ctx ctx;
+    if (prelude > 0) { KSI_AsyncService *h0 = nullptr; KSI_SigningHighAvailabilityService_new(ctx, &h0); for (int e = 0; e < k; e++) KSI_AsyncService_addEndpoint(h0, ("ksi+tcp://" + hostOf(e) + ":" + std::to_string(3000 + e)).c_str(), kLogin.c_str(), kKey.c_str());
+        KSI_AggregationReq *rq = nullptr; KSI_AggregationReq_new(ctx, &rq); KSI_DataHash *dh = nullptr; Bytes hb = hashOf(7); KSI_DataHash_fromImprint(ctx, hb.data(), hb.size(), &dh); KSI_AggregationReq_setRequestHash(rq, dh); KSI_AsyncHandle *h = nullptr; KSI_AsyncAggregationHandle_new(ctx, rq, &h);
+        if (KSI_AsyncService_addRequest(h0, h) != KSI_OK) KSI_AsyncHandle_free(h); for (int r = 1; r < prelude; r++) { KSI_AsyncHandle *out = nullptr; size_t w = 0; KSI_AsyncService_run(h0, &out, &w); KSI_AsyncHandle_free(out); }
+        KSI_AsyncService_free(h0); resetSim(); c.cls("history:earlier-request-dropped-in-flight"); desc += " after-dropped-request(" + num(prelude - 1) + " runs)"; }
+    KSI_AsyncService *has = nullptr; KSI_SigningHighAvailabilityService_new(ctx, &has);
     sim::net().onConnect = [&](sim::Conn &cn) { int e = endpointOfConn(&cn); return (e >= 0 && outc[e] == OC_REFUSED) ? sim::CP_REFUSE : sim::CP_ACCEPT; };
     for (int e = 0; e < k; e++) KSI_AsyncService_addEndpoint(has, ("ksi+tcp://" + hostOf(e) + ":" + std::to_string(3000 + e)).c_str(), kLogin.c_str(), kKey.c_str());
     KSI_AggregationReq *rq = nullptr; KSI_AggregationReq_new(ctx, &rq); KSI_DataHash *dh = nullptr; Bytes hb = hashOf(0); KSI_DataHash_fromImprint(ctx, hb.data(), hb.size(), &dh); KSI_AggregationReq_setRequestHash(rq, dh); KSI_AsyncHandle *h = nullptr; KSI_AsyncAggregationHandle_new(ctx, rq, &h);
@@ -84,7 +90,7 @@ static CfgVals runConfig(Case &c, bool ext, int k, const std::vector<CfgVals> &v
 void harness_case(Dec &d, Case &c) {
     unsigned part = d.pick(3);
     if (part == 0) { int k = 1 + (int)d.pick(3); int outc[3], order[3] = {0, 1, 2}; for (int e = 0; e < 3; e++) outc[e] = (int)d.pick(OC_COUNT); unsigned perm = d.pick(6); int p3[6][3] = {{0, 1, 2}, {0, 2, 1}, {1, 0, 2}, {1, 2, 0}, {2, 0, 1}, {2, 1, 0}}; for (int i = 0; i < 3; i++) order[i] = p3[perm][i];
-        std::string desc = "k=" + num(k) + " outcomes="; for (int e = 0; e < k; e++) desc += std::string(kOutcName[outc[e]]) + ","; desc += " order=" + num(order[0]) + num(order[1]) + num(order[2]); c.desc = "single " + desc; bool differ = false; for (int e = 1; e < k; e++) if (outc[e] != outc[0]) differ = true; c.nontrivial = k >= 2 && differ; singleRequest(c, k, outc, order, desc); c.cls("endpoints:" + num(k)); return; }
+        std::string desc = "k=" + num(k) + " outcomes="; for (int e = 0; e < k; e++) desc += std::string(kOutcName[outc[e]]) + ","; desc += " order=" + num(order[0]) + num(order[1]) + num(order[2]); c.desc = "single " + desc; bool differ = false; for (int e = 1; e < k; e++) if (outc[e] != outc[0]) differ = true; c.nontrivial = k >= 2 && differ; int prelude = d.pick(3) == 0 ? 1 + (int)d.pick(3) : 0; singleRequest(c, k, outc, order, desc, prelude); c.desc = "single " + desc; c.cls("endpoints:" + num(k)); return; }
     if (part == 1) { // two requests, cache size 1: endpoint 0 stays silent on request 1 (answered by endpoint 1), so it rejects request 2 with 'cache full'; request 2 then depends on endpoint 1 alone
         resetSim(); Ctx ctx; KSI_AsyncService *has = nullptr; KSI_SigningHighAvailabilityService_new(ctx, &has); for (int e = 0; e < 2; e++) KSI_AsyncService_addEndpoint(has, ("ksi+tcp://" + hostOf(e) + ":" + std::to_string(3000 + e)).c_str(), kLogin.c_str(), kKey.c_str());
         int outc2 = (int)d.pick(3); // outcome of endpoint 1 for request 2: valid / error status / closed
@@ -113,10 +119,10 @@ void harness_case(Dec &d, Case &c) {
 // exhaustive: every outcome vector (6^k) x every arrival order for one request, k = 1..3
 void harness_exh_case(const uint8_t *enc, size_t n, Case &c) {
     if (n < 5) { c.skip("short"); return; } int k = 1 + enc[0] % 3; int outc[3] = {enc[1] % OC_COUNT, enc[2] % OC_COUNT, enc[3] % OC_COUNT}; int p3[6][3] = {{0, 1, 2}, {0, 2, 1}, {1, 0, 2}, {1, 2, 0}, {2, 0, 1}, {2, 1, 0}}; int order[3]; for (int i = 0; i < 3; i++) order[i] = p3[enc[4] % 6][i];
-    std::string desc = "k=" + num(k) + " outcomes="; for (int e = 0; e < k; e++) desc += std::string(kOutcName[outc[e]]) + ","; desc += " order=" + num(order[0]) + num(order[1]) + num(order[2]); c.desc = "table " + desc; bool differ = false; for (int e = 1; e < k; e++) if (outc[e] != outc[0]) differ = true; c.nontrivial = k >= 2 && differ; singleRequest(c, k, outc, order, desc);
+    std::string desc = "k=" + num(k) + " outcomes="; for (int e = 0; e < k; e++) desc += std::string(kOutcName[outc[e]]) + ","; desc += " order=" + num(order[0]) + num(order[1]) + num(order[2]); c.desc = "table " + desc; bool differ = false; for (int e = 1; e < k; e++) if (outc[e] != outc[0]) differ = true; c.nontrivial = k >= 2 && differ; singleRequest(c, k, outc, order, desc, n > 5 ? enc[5] % 4 : 0); c.desc = "table " + desc;
 }
 void harness_exhaustive(int shard, int nshards) {
     uint64_t cnt = 0; for (int k = 1; k <= 3; k++) { int total = 1; for (int i = 0; i < k; i++) total *= OC_COUNT; int orders = k == 1 ? 1 : (k == 2 ? 2 : 6);
-        for (int v = 0; v < total; v++) for (int o = 0; o < orders; o++) { cnt++; if ((int)(cnt % (uint64_t)nshards) != shard) continue; int x = v; uint8_t oc[3] = {0, 0, 0}; for (int i = 0; i < k; i++) { oc[i] = (uint8_t)(x % OC_COUNT); x /= OC_COUNT; } uint8_t perm = k == 2 ? (o ? 2 : 0) : (uint8_t)o; if (vf::runExh(Bytes{(uint8_t)(k - 1), oc[0], oc[1], oc[2], perm})) return; } }
-    if (shard == 0) vf::stats().exhaustive["single request: every outcome vector over 6 outcomes x every arrival order, 1..3 endpoints"] = cnt;
+        for (int v = 0; v < total; v++) for (int o = 0; o < orders; o++) for (int pre = 0; pre <= 2; pre += 2) { cnt++; if ((int)(cnt % (uint64_t)nshards) != shard) continue; int x = v; uint8_t oc[3] = {0, 0, 0}; for (int i = 0; i < k; i++) { oc[i] = (uint8_t)(x % OC_COUNT); x /= OC_COUNT; } uint8_t perm = k == 2 ? (o ? 2 : 0) : (uint8_t)o; if (vf::runExh(Bytes{(uint8_t)(k - 1), oc[0], oc[1], oc[2], perm, (uint8_t)pre})) return; } }
+    if (shard == 0) vf::stats().exhaustive["single request: every outcome vector over 6 outcomes x every arrival order, 1..3 endpoints x {fresh context, context on which an earlier request was dropped in flight}"] = cnt;
 }
